@@ -2212,3 +2212,333 @@ func (r *Report) BlamePolarity(key, fnKey string) {
 	}
 	r.OK(k, d, w.Pos(calls[0].Pos()), "complainant on failure, respondent on success")
 }
+
+// RetOKHas: every nil-error return of fn has result #idx containing atoms.
+func (r *Report) RetOKHas(key, fnKey string, idx int, atoms ...string) {
+	w := r.W
+	fn := w.Fn(fnKey)
+	d := fmt.Sprintf("every nil-error return of %s yields result #%d of the form {%s}", fnKey, idx, strings.Join(atoms, ", "))
+	k := fmt.Sprintf("%s|%s|retok#%d", key, fnKey, idx)
+	if fn == nil {
+		r.Unres(k, d, "function not found")
+		return
+	}
+	sites := w.Sites(fn, RetOK())
+	if len(sites) == 0 {
+		r.Unres(k, d, "no nil-error return")
+		return
+	}
+	for _, s := range sites {
+		rt := s.Instr.(*ssa.Return)
+		t := Render(retValue(rt, idx))
+		if !t.Has(atoms...) {
+			r.Bad(k, d, w.posOr(rt.Pos(), fn), "returns "+clip(t.String(), 200))
+			return
+		}
+	}
+	r.OK(k, d, w.FnPos(fn), fmt.Sprintf("%d success return(s)", len(sites)))
+}
+
+// NoWriteThroughFields: fn never stores to the listed fields (of any object).
+func (r *Report) NoWriteThroughFields(key, fnKey string, fields ...string) {
+	w := r.W
+	fn := w.Fn(fnKey)
+	d := fmt.Sprintf("%s never assigns %v", fnKey, fields)
+	k := key + "|" + fnKey
+	if fn == nil {
+		r.Unres(k, d, "function not found")
+		return
+	}
+	for _, f := range append([]*ssa.Function{fn}, fn.AnonFuncs...) {
+		for _, fld := range fields {
+			if s := w.Sites(f, StoreEff(fld)); len(s) > 0 {
+				r.Bad(k, d, w.posOr(s[0].Instr.Pos(), f), "assigns "+fld)
+				return
+			}
+		}
+	}
+	r.OK(k, d, w.FnPos(fn), "no assignment")
+}
+
+// FreeVarWriters: the captured local `name` of fn is appended-to / assigned only in the listed closures (or fn itself
+// for its zero initialisation).
+func (r *Report) FreeVarWriters(key, fnKey, name string, allowed []string) {
+	w := r.W
+	fn := w.Fn(fnKey)
+	d := fmt.Sprintf("local %s of %s is written only in %v", name, fnKey, allowed)
+	k := key + "|" + fnKey + "|" + name
+	if fn == nil {
+		r.Unres(k, d, "function not found")
+		return
+	}
+	var alloc *ssa.Alloc
+	for _, b := range fn.Blocks {
+		for _, in := range b.Instrs {
+			if a, ok := in.(*ssa.Alloc); ok && a.Comment == name {
+				alloc = a
+			}
+		}
+	}
+	if alloc == nil {
+		r.Unres(k, d, "captured local not found (not captured any more?)")
+		return
+	}
+	writers := map[string]bool{}
+	for _, ref := range *alloc.Referrers() {
+		switch x := ref.(type) {
+		case *ssa.Store:
+			if x.Addr == ssa.Value(alloc) {
+				if c, ok := x.Val.(*ssa.Const); ok && c.Value == nil {
+					continue // zero initialisation
+				}
+				writers[fnKey] = true
+			}
+		case *ssa.MakeClosure:
+			cf := x.Fn.(*ssa.Function)
+			for i, bnd := range x.Bindings {
+				if bnd != ssa.Value(alloc) {
+					continue
+				}
+				fv := cf.FreeVars[i]
+				for _, fr := range *fv.Referrers() {
+					if st, ok := fr.(*ssa.Store); ok && st.Addr == ssa.Value(fv) {
+						writers[FuncKey(cf)] = true
+					}
+				}
+			}
+		}
+	}
+	for wr := range writers {
+		ok := false
+		for _, a := range allowed {
+			if wr == a {
+				ok = true
+			}
+		}
+		if !ok {
+			r.Bad(k, d, w.FnPos(fn), wr+" also writes "+name)
+			return
+		}
+	}
+	if len(writers) == 0 {
+		r.Unres(k, d, "no writer found")
+		return
+	}
+	r.OK(k, d, w.FnPos(fn), fmt.Sprintf("writers: %v", sortedKeys(writers)))
+}
+
+// StatusSums (C06): in CalculatePricesPowers each accumulator is Add(priceInfo.Power) under the matching status.
+func (r *Report) StatusSums(key, fnKey, typesPkg string) {
+	w := r.W
+	fn := w.Fn(fnKey)
+	d := "CalculatePricesPowers adds each entry's power to total and to exactly the bucket of its status, returned in the order (total, available, unavailable, unsupported)"
+	k := key + "|" + fnKey
+	if fn == nil {
+		r.Unres(k, d, "function not found")
+		return
+	}
+	w.FuncsAnalysed[fn] = true
+	var ret *ssa.Return
+	for _, b := range fn.Blocks {
+		if rt := returnOf(b); rt != nil && b != fn.Recover {
+			ret = rt
+		}
+	}
+	if ret == nil || len(ret.Results) != 4 {
+		r.Unres(k, d, "unexpected result arity")
+		return
+	}
+	want := []string{"", "SIGNAL_PRICE_STATUS_AVAILABLE", "SIGNAL_PRICE_STATUS_UNAVAILABLE", "SIGNAL_PRICE_STATUS_UNSUPPORTED"}
+	ifs := w.ifs(fn)
+	for i, res := range ret.Results {
+		phi, ok := seeThrough(res).(*ssa.Phi)
+		if !ok {
+			r.Bad(k, d, w.FnPos(fn), fmt.Sprintf("result #%d is not a loop accumulator", i))
+			return
+		}
+		// find the Add call feeding the accumulator
+		var add *ssa.Call
+		seen := map[ssa.Value]bool{}
+		var walk func(v ssa.Value)
+		walk = func(v ssa.Value) {
+			if seen[v] || add != nil {
+				return
+			}
+			seen[v] = true
+			switch x := v.(type) {
+			case *ssa.Phi:
+				for _, e := range x.Edges {
+					walk(e)
+				}
+			case *ssa.Call:
+				if nameMatch(CalleeName(&x.Call), "Int.Add") {
+					add = x
+				}
+			}
+		}
+		walk(phi)
+		if add == nil || !Render(add.Call.Args[1]).Has("^field:ValidatorPriceInfo.Power") || !Render(add.Call.Args[0]).Has("phi") {
+			r.Bad(k, d, w.FnPos(fn), fmt.Sprintf("result #%d is not accumulated as acc.Add(priceInfo.Power)", i))
+			return
+		}
+		if want[i] == "" {
+			// total: must not be gated by any status comparison
+			c := Cond{Op: "EQL", A: []string{"field:ValidatorPriceInfo.SignalPriceStatus"}, B: []string{"const"}, Want: true}
+			_ = c
+			gated := false
+			for _, ii := range ifs {
+				if ii.pred.Op == "EQL" && ii.pred.A.Has("field:ValidatorPriceInfo.SignalPriceStatus") && ii.b.Dominates(add.Block()) && ii.b != add.Block() {
+					gated = true
+				}
+			}
+			if gated {
+				r.Bad(k, d, w.posOr(add.Pos(), fn), "the total is accumulated under a status condition")
+				return
+			}
+			continue
+		}
+		c := Cond{Op: "EQL", A: []string{"field:ValidatorPriceInfo.SignalPriceStatus"}, B: []string{w.ConstAtom(typesPkg, want[i])}, Want: true}
+		if ok, _, det := w.gatedBy(fn, ifs, Site{add, add.Block(), "add"}, c); !ok {
+			r.Bad(k, d, w.posOr(add.Pos(), fn), fmt.Sprintf("result #%d is not accumulated under status == %s: %s", i, want[i], det))
+			return
+		}
+	}
+	r.OK(k, d, w.FnPos(fn), "four accumulators, each under its own status")
+}
+
+// FileLint: the determinism lint restricted to the functions declared in one file.
+func (r *Report) FileLint(key, relFile string) {
+	w := r.W
+	d := "no nondeterministic construct in " + relFile
+	var fns []*ssa.Function
+	for _, fn := range w.Funcs {
+		if len(fn.Blocks) > 0 && strings.HasSuffix(w.Fset.Position(fn.Pos()).Filename, "/"+relFile) {
+			fns = append(fns, fn)
+		}
+	}
+	if len(fns) == 0 {
+		r.Unres(key, d, "no function found in file")
+		return
+	}
+	n := 0
+	for _, fn := range fns {
+		hits, ranges, _ := w.lintOne(fn)
+		n++
+		for _, h := range append(hits, ranges...) {
+			if strings.HasSuffix(h.What, "[collect-and-sort]") {
+				continue
+			}
+			r.Bad(key+"|"+h.Fn+"|"+h.What, d, h.Pos, h.What+" in "+h.Fn)
+		}
+	}
+	r.OK(key+"|clean", d, relFile, fmt.Sprintf("%d functions linted", n))
+}
+
+// OldIndexDeletionUnconditional (C07.R4): the deletion of the old by-power index entry must not sit under the branch
+// that tests the NEW power; it must depend only on whether a stored record exists.
+func (r *Report) OldIndexDeletionUnconditional(key, fnKey string) {
+	w := r.W
+	fn := w.Fn(fnKey)
+	d := "the old index entry is deleted on both the zero and the non-zero new-power path"
+	k := key + "|" + fnKey
+	if fn == nil {
+		r.Unres(k, d, "function not found")
+		return
+	}
+	sites := w.Sites(fn, CallEff("Keeper.deleteSignalTotalPowerByPowerIndex"))
+	if len(sites) == 0 {
+		r.Unres(k, d, "no deletion site")
+		return
+	}
+	zero := Cond{Op: "EQL", A: []string{"field:Signal.Power", "param:signal"}, B: []string{"const:0"}, Want: true}
+	for _, ii := range w.ifs(fn) {
+		if m, _ := zero.Match(ii.pred); m {
+			for _, s := range sites {
+				if ii.b.Dominates(s.Block) && ii.b != s.Block {
+					r.Bad(k, d, w.posOr(s.Instr.Pos(), fn), "deletion of the old index entry happens only on one side of the new-power test")
+					return
+				}
+			}
+		}
+	}
+	r.OK(k, d, w.FnPos(fn), "deletion precedes the new-power test")
+}
+
+// nativeAccumulator: fn returns a native-width integer that is accumulated with + or * over a loop
+// (a phi feeding itself through the operation): such a result wraps silently for large inputs.
+func nativeAccumulator(fn *ssa.Function) bool {
+	if fn == nil || len(fn.Blocks) == 0 {
+		return false
+	}
+	res := fn.Signature.Results()
+	intRes := false
+	for i := 0; i < res.Len(); i++ {
+		if b, ok := res.At(i).Type().Underlying().(*types.Basic); ok && b.Info()&types.IsInteger != 0 {
+			intRes = true
+		}
+	}
+	if !intRes {
+		return false
+	}
+	for _, b := range fn.Blocks {
+		for _, in := range b.Instrs {
+			bo, ok := in.(*ssa.BinOp)
+			if !ok || (bo.Op != token.ADD && bo.Op != token.MUL) {
+				continue
+			}
+			for _, op := range []ssa.Value{bo.X, bo.Y} {
+				if phi, ok := op.(*ssa.Phi); ok {
+					for _, e := range phi.Edges {
+						if e == ssa.Value(bo) {
+							// loop-carried; ignore plain index counters (the other operand is the constant 1)
+							other := bo.Y
+							if op == bo.Y {
+								other = bo.X
+							}
+							if c, isC := other.(*ssa.Const); isC && constString(c) == "1" {
+								continue
+							}
+							return true
+						}
+					}
+				}
+			}
+		}
+	}
+	return false
+}
+
+// ArgNoNativeAccumulation: the argument does not derive from the result of any repo function that accumulates in
+// native width (interprocedural companion of NoNativeArith).
+func (r *Report) ArgNoNativeAccumulation(key, fnKey, callee string, idx int) {
+	w := r.W
+	fn := w.Fn(fnKey)
+	d := fmt.Sprintf("in %s argument #%d of %s does not derive from a native-width accumulator function", fnKey, idx, callee)
+	k := fmt.Sprintf("%s|%s|%s#%d", key, fnKey, callee, idx)
+	if fn == nil {
+		r.Unres(k, d, "function not found")
+		return
+	}
+	calls := Calls(fn, callee)
+	if len(calls) == 0 {
+		r.Unres(k, d, "no call site")
+		return
+	}
+	for _, ci := range calls {
+		v := argValue(ci.Common(), idx)
+		if v == nil {
+			r.Unres(k, d, "argument missing")
+			return
+		}
+		for a := range Render(v).Atoms() {
+			if !strings.HasPrefix(a, "call:") {
+				continue
+			}
+			if cf := w.Funcs[a[5:]]; cf != nil && nativeAccumulator(cf) {
+				r.Bad(k, d, w.posOr(ci.Pos(), fn), "derives from "+a[5:]+", which sums/multiplies in native width")
+				return
+			}
+		}
+	}
+	r.OK(k, d, w.FnPos(fn), "no native accumulator in the derivation")
+}
